@@ -59,7 +59,14 @@ def main():
               "means the analysis itself could not be carried out (anchor "
               "vanished, floor not met). Genuine defects repaired in /repo "
               "as 'fix:' commits and remaining known findings are listed in "
-              "known_findings.json.",
+              "known_findings.json. The thorough tier runs the same rules "
+              "and then tests the checker itself on the current tree: every "
+              "kept seeded change of the property (seeded/) is applied to a "
+              "scratch copy and must be reported / leave the check quiet, "
+              "and three compositions of mechanical meaning-preserving "
+              "rewrites of the whole library (tools/preserve_fuzz.py) must "
+              "get the verdict the unrewritten tree gets (metamorphic "
+              "test); these lines never change the exit code.",
         not_applicable=na,
     )
     with open(os.path.join(HERE, "MANIFEST.json"), "w") as f:
